@@ -116,6 +116,8 @@ type Exec struct {
 	chans    map[uintptr]*chanState
 	race     *raceState
 	focusCache map[uintptr]bool
+	enBuf      []*thread
+	candBuf    []*thread
 }
 
 var cx *Exec
@@ -264,37 +266,46 @@ func (x *Exec) pick(self *thread) *thread {
 		return nil
 	}
 	// raw enabledness
-	var en []*thread
+	en := x.enBuf[:0]
+	yielders := false
 	for _, t := range x.threads {
 		if x.threadEnabled(t) {
 			en = append(en, t)
-		}
-	}
-	// fair yield: a yielder waits for every thread that was enabled when it yielded
-	// to take a step or become disabled.
-	enSet := map[int]bool{}
-	for _, t := range en {
-		enSet[t.id] = true
-	}
-	var cand []*thread
-	for _, t := range en {
-		if len(t.yieldWait) > 0 {
-			for id := range t.yieldWait {
-				if !enSet[id] {
-					delete(t.yieldWait, id)
-				}
+			if len(t.yieldWait) > 0 {
+				yielders = true
 			}
 		}
-		if len(t.yieldWait) == 0 {
-			cand = append(cand, t)
-		}
 	}
-	if len(cand) == 0 && len(en) > 0 {
-		// all enabled threads are yielders waiting on each other: release them all
+	x.enBuf = en
+	cand := en
+	if yielders {
+		// fair yield: a yielder waits for every thread that was enabled when it yielded
+		// to take a step or become disabled.
+		enSet := map[int]bool{}
 		for _, t := range en {
-			t.yieldWait = nil
+			enSet[t.id] = true
 		}
-		cand = en
+		cand = x.candBuf[:0]
+		for _, t := range en {
+			if len(t.yieldWait) > 0 {
+				for id := range t.yieldWait {
+					if !enSet[id] {
+						delete(t.yieldWait, id)
+					}
+				}
+			}
+			if len(t.yieldWait) == 0 {
+				cand = append(cand, t)
+			}
+		}
+		x.candBuf = cand
+		if len(cand) == 0 && len(en) > 0 {
+			// all enabled threads are yielders waiting on each other: release them all
+			for _, t := range en {
+				t.yieldWait = nil
+			}
+			cand = en
+		}
 	}
 	if len(cand) == 0 {
 		return nil
@@ -432,7 +443,7 @@ func spawn(fn func(), daemon bool) {
 		t.pend = nil
 		fn()
 	})
-	x.point(&pendingOp{name: "go", obj: t.id, nopre: x.nopreFor(3)})
+	x.point(&pendingOp{name: "go", obj: 0, nopre: x.nopreFor(3)})
 }
 
 // MarkDaemon marks the calling thread as allowed to stay blocked at quiescence.
@@ -483,6 +494,25 @@ func Choose(n int) int {
 		i = 0
 	}
 	return i
+}
+
+// Note records a harness observation in the schedule trace as an access to one shared
+// "harness" object, so that two executions that differ in the order of observations are never
+// treated as equivalent by the explorer's happens-before cache. It is not a scheduling point.
+func Note(label string) {
+	x := cx
+	if x == nil || x.aborting || x.cur == nil {
+		return
+	}
+	x.trace = append(x.trace, Step{x.cur.id, "note:" + label, -1})
+}
+
+// TraceLen returns the number of trace steps recorded so far in the running execution.
+func TraceLen() int {
+	if x := cx; x != nil {
+		return len(x.trace)
+	}
+	return 0
 }
 
 // ThreadID returns the running controlled thread's id (or -1).
